@@ -5,10 +5,10 @@ CONSTANTS
   Valid = {"ks1"}
   Attr <- MCAttr
   NHosts = 2
-  MaxOps = 3
+  MaxOps = 4
   StoreUnderReadLock = FALSE
+  SelectIgnoresFailure = FALSE
   ReopenForgetsKs = FALSE
-  FailKeepsLock = FALSE
-  SelectIgnoresFailure = TRUE
-INVARIANTS OnlyValidKs NoBrokenSession
+  FailKeepsLock = TRUE
+INVARIANTS ForwardInClientKs NoLockLeak
 CHECK_DEADLOCK FALSE
